@@ -438,6 +438,19 @@ fcontract('BytesInteger', '_build', [
 
 
 # ------------------------------------------------------------------------------------------------ BitsInteger
+# swapgroups(buf, pos, L): the L bits at pos with their 8-bit groups in reverse order (L a multiple of 8):
+#   i -> buf[pos + 8*(L/8 - 1 - i div 8) + i mod 8]
+prelude.declare_fun('swapgroups', [t.ARR, t.INT, t.INT], t.ARR)
+
+
+def _swapgroups_axioms(x):
+    buf, pos, L = x.args
+    i = t.var('sg!', t.INT)
+    src = t.add(pos, t.add(t.mul(I(8), t.sub(t.sub(t.pyfloordiv(L, I(8)), t.ONE), t.pyfloordiv(i, I(8)))), t.pymod(i, I(8))))
+    return [t.forall([i], t.implies(t.and_(t.le(t.ZERO, i), t.lt(i, L)), t.eq(t.select(x, i), t.select(buf, src))), pats=[[t.select(x, i)]])]
+
+
+prelude.AXIOMATIZED['swapgroups'] = _swapgroups_axioms
 from .specs import isbits
 from .bitstream import isbits8  # noqa
 
@@ -461,9 +474,13 @@ def _bitsint_parse_ok(pre, post):
     iv, ok = result_int(post)
     u = bits_val(o.buf, o.pos, t.add(o.pos, L))
     val = t.ite(t.and_(sg, t.ne(t.select(o.buf, o.pos), t.ZERO)), t.sub(u, pow2(L)), u)
+    G = t.app('swapgroups', t.ARR, o.buf, o.pos, L)
+    us = bits_val(G, t.ZERO, L)
+    vals = t.ite(t.and_(sg, t.ne(t.select(G, t.ZERO), t.ZERO)), t.sub(us, pow2(L)), us)
     return [('consumes-exactly-length', t.eq(o2.pos, t.add(o.pos, L))),
             ('result-is-int', ok),
             ('value-is-msb-first-twos-complement', t.implies(t.and_(t.not_(sw), isbits(_region(pre))), t.eq(iv, val))),
+            ('byte-swapped-value-is-that-of-the-8-bit-groups-in-reverse-order', t.implies(t.and_(sw, isbits(_region(pre))), t.eq(iv, vals)), ('C10', 'C03')),
             ('buffer-unchanged', buffer_same(pre, post), ('C17', 'C08'))]
 
 
@@ -495,8 +512,13 @@ def _bitsint_build_ok(pre, post):
     j = t.var('j!', t.INT)
     digits = forall_range(j, t.ZERO, L, t.eq(t.select(o2.buf, t.add(o.pos, j)), t.pymod(specs.shr(N, t.sub(t.sub(L, t.ONE), j)), I(2))),
                           [[t.select(o2.buf, t.add(o.pos, j))]])
+    k = t.var('k!', t.INT)
+    srcbit = t.add(t.mul(I(8), t.sub(t.sub(t.pyfloordiv(L, I(8)), t.ONE), t.pyfloordiv(k, I(8)))), t.pymod(k, I(8)))
+    sdigits = forall_range(k, t.ZERO, L, t.eq(t.select(o2.buf, t.add(o.pos, k)), t.pymod(specs.shr(N, t.sub(t.sub(L, t.ONE), srcbit)), I(2))),
+                           [[t.select(o2.buf, t.add(o.pos, k))]])
     return [('advances-by-length', t.eq(o2.pos, t.add(o.pos, L))),
             ('writes-msb-first-twos-complement-digits', t.implies(t.not_(sw), digits)),
+            ('byte-swapped-writes-the-8-bit-groups-of-those-digits-in-reverse-order', t.implies(sw, sdigits), ('C10', 'C03')),
             ('returns-the-value', t.app('pyeq', t.BOOL, post.eng.to_dyn(post.result, post.st), pre['obj'].t))]
 
 
